@@ -125,3 +125,10 @@ fn text_of(op: usize) -> &'static str {
         }}}
     }
 }
+
+// aliases so that a failed Verus obligation of unit execute_query finds its concrete input here
+#[test] fn w__execute_sparql_query__any() { w__execute_sparql_query__never_mutates(); }
+#[test] fn w__execute_update_operation__any() { w__update_sequences__agree_with_sparql_update_semantics(); }
+#[test] fn w__execute_modify__any() { w__update_sequences__agree_with_sparql_update_semantics(); }
+#[test] fn w__execute_update_request__any() { w__update_sequences__agree_with_sparql_update_semantics(); }
+#[test] fn w__execute_sparql_update__any() { w__update_sequences__agree_with_sparql_update_semantics(); }
